@@ -14,7 +14,9 @@ Lemma u_read_spec (u : @ureader A) m d e u' :
   (u_data u <> [] -> (1 <= m)%nat -> (forall k, In k (u_script u) -> (1 <= k)%nat) -> (1 <= length d)%nat) /\
   (forall k, In k (u_script u') -> In k (u_script u)).
 Proof.
-  unfold u_read. destruct (u_data u) as [|a l] eqn:Hd.
+  unfold u_read. destruct m as [|m0].
+  { intros H; injection H as <- <- <-. simpl. repeat split; auto; try lia. }
+  set (m := S m0). destruct (u_data u) as [|a l] eqn:Hd.
   - intros H; injection H as <- <- <-. rewrite Hd. simpl.
     repeat split; auto; try lia. congruence.
   - set (cap := match u_script u with [] => m | k :: _ => Nat.min k m end).
@@ -149,7 +151,7 @@ Lemma u_read_none_progress (u : @ureader A) m d u' :
   (forall k, In k (u_script u) -> (1 <= k)%nat) -> (1 <= length d)%nat.
 Proof.
   intros H Hm Hk. pose proof (u_read_spec _ _ _ _ _ H) as (_ & _ & _ & Hprog & _).
-  apply Hprog; auto. intro Hd. unfold u_read in H. rewrite Hd in H. discriminate.
+  apply Hprog; auto. intro Hd. unfold u_read in H. destruct m; [lia|]. rewrite Hd in H. discriminate.
 Qed.
 
 Lemma read_all_completes limit body : forall bufs sofar s d e s',
@@ -356,4 +358,752 @@ Proof.
   exists 300, [(true, 0); (true, 10)]. repeat split.
   - simpl. intros v [<-|[<-|[]]]; lia.
   - exists 10. simpl. split; [auto|lia].
+Qed.
+
+(* ======================================================================================== *)
+(* ---- Go int64 arithmetic: the reader as coded vs the ideal reader ---- *)
+Lemma wrap64_id z : - two63 <= z < two63 -> wrap64 z = z.
+Proof.
+  intros H. unfold wrap64. rewrite Z.mod_small; unfold two63 in *; lia.
+Qed.
+
+Lemma wrap64_range z : - two63 <= wrap64 z < two63.
+Proof.
+  unfold wrap64. pose proof (Z.mod_pos_bound (z + two63) (2 * two63)). unfold two63 in *. lia.
+Qed.
+
+Lemma wrap64_max_plus_1 : wrap64 (max_int64 + 1) = - two63.
+Proof. vm_compute. reflexivity. Qed.
+
+Section Reader64.
+Context {A : Type}.
+
+(* for 0 <= n <= 2^63-2 nothing wraps: the coded Read IS the ideal Read *)
+Lemma mbr_read64_refines (s : @mbr A) m :
+  0 <= m_n s <= max_int64 - 1 -> mbr_read64 s m = R_ok (mbr_read s m).
+Proof.
+  intros Hn. unfold mbr_read64, mbr_read. destruct (m_err s); [reflexivity|].
+  destruct m as [|m0]; [reflexivity|]. set (m := S m0).
+  assert (H1 : wrap64 (m_n s + 1) = m_n s + 1).
+  { apply wrap64_id. unfold max_int64, two63 in *. lia. }
+  rewrite H1.
+  replace (m_n s + 1 <? 0) with false by (symmetry; apply Z.ltb_ge; lia).
+  rewrite andb_false_r.
+  destruct (u_read (m_u s) _) as [[d e] u'] eqn:Hu.
+  pose proof (u_read_spec _ _ _ _ _ Hu) as (_ & Hlen & _).
+  destruct (Z.of_nat (length d) <=? m_n s) eqn:Hk.
+  - apply Z.leb_le in Hk. rewrite wrap64_id; [reflexivity|]. unfold max_int64, two63 in *. lia.
+  - replace (m_n s <? 0) with false by (symmetry; apply Z.ltb_ge; lia). reflexivity.
+Qed.
+
+Lemma mbr_read_n_range (s : @mbr A) m d e s' B :
+  0 <= m_n s <= B -> mbr_read s m = (d, e, s') -> 0 <= m_n s' <= B.
+Proof.
+  intros Hn H. unfold mbr_read in H. destruct (m_err s).
+  { injection H as <- <- <-. exact Hn. }
+  destruct m as [|m0]. { injection H as <- <- <-. exact Hn. }
+  destruct (u_read (m_u s) _) as [[d0 e0] u'].
+  destruct (Z.of_nat (length d0) <=? m_n s) eqn:Hk; injection H as <- <- <-; cbn [m_n].
+  - apply Z.leb_le in Hk. lia.
+  - lia.
+Qed.
+
+Lemma read_all64_refines bufs : forall (s : @mbr A),
+  0 <= m_n s <= max_int64 - 1 -> read_all64 s bufs = R_ok (read_all s bufs).
+Proof.
+  induction bufs as [|m r IH]; intros s Hn; cbn [read_all64 read_all]; [reflexivity|].
+  rewrite (mbr_read64_refines s m Hn).
+  destruct (mbr_read s m) as [[d e] s1] eqn:H1.
+  destruct e as [x|]; [reflexivity|].
+  rewrite (IH s1 (mbr_read_n_range _ _ _ _ _ _ Hn H1)).
+  destruct (read_all s1 r) as [[d2 e2] s2]. reflexivity.
+Qed.
+
+Theorem limit_exact_int64 limit (body : list A) script eofd bufs :
+  0 <= limit <= max_int64 - 1 ->
+  exists d e s', read_all64 (mbr_init limit body script eofd) bufs = R_ok (d, e, s') /\
+  read_all (mbr_init limit body script eofd) bufs = (d, e, s') /\
+  d = firstn (length d) body /\ Z.of_nat (length d) <= limit /\
+  (e = Some EOF -> d = body /\ Z.of_nat (length body) <= limit) /\
+  (e = Some TooLarge -> limit < Z.of_nat (length body) /\ d = firstn (Z.to_nat limit) body) /\
+  e <> Some ErrOther.
+Proof.
+  intros Hl. destruct (read_all (mbr_init limit body script eofd) bufs) as [[d e] s'] eqn:H.
+  exists d, e, s'. split.
+  - rewrite read_all64_refines by exact Hl. rewrite H. reflexivity.
+  - split; [reflexivity|]. apply (limit_exact _ _ _ _ _ _ _ _ (proj1 Hl) H).
+Qed.
+
+(* limit = 2^63-1: l.n+1 wraps to -2^63, every buffer is "longer" and p[:l.n+1] panics *)
+Theorem limit_maxint64_panics (s : @mbr A) m :
+  m_err s = None -> m_n s = max_int64 -> (1 <= m)%nat -> mbr_read64 s m = R_panic.
+Proof.
+  intros He Hn Hm. unfold mbr_read64. rewrite He. destruct m as [|m0]; [lia|].
+  rewrite Hn, wrap64_max_plus_1.
+  replace (Z.of_nat (S m0) >? - two63) with true by (symmetry; apply Z.gtb_lt; unfold two63; lia).
+  reflexivity.
+Qed.
+
+Theorem read_all64_maxint64_panics (body : list A) script eofd m bufs :
+  (1 <= m)%nat -> read_all64 (mbr_init max_int64 body script eofd) (m :: bufs) = R_panic.
+Proof.
+  intros Hm. cbn [read_all64]. rewrite limit_maxint64_panics; auto.
+Qed.
+
+(* negative limits (rejected by the directive's setup, reachable only through the Go API) *)
+Theorem negative_limit_misbehaves (s : @mbr A) m :
+  m_err s = None -> (1 <= m)%nat ->
+  (- two63 <= m_n s < -1 -> mbr_read64 s m = R_panic) /\
+  (m_n s = -1 -> mbr_read64 s m = R_neg (-1)).
+Proof.
+  intros He Hm. unfold mbr_read64. rewrite He. destruct m as [|m0]; [lia|]. split.
+  - intros Hn. rewrite wrap64_id by (unfold two63 in *; lia).
+    replace (Z.of_nat (S m0) >? m_n s + 1) with true by (symmetry; apply Z.gtb_lt; lia).
+    replace (m_n s + 1 <? 0) with true by (symmetry; apply Z.ltb_lt; lia). reflexivity.
+  - intros Hn. rewrite Hn. change (wrap64 (-1 + 1)) with 0.
+    replace (Z.of_nat (S m0) >? 0) with true by (symmetry; apply Z.gtb_lt; lia).
+    cbn [andb Z.ltb Z.compare Z.to_nat]. unfold u_read. cbn. reflexivity.
+Qed.
+
+End Reader64.
+
+(* ---- count level: scripted (possibly lying) answers, limits up to 2^63-2 ---- *)
+Lemma cnt_run_sticky bufs : forall s e answers,
+  c_err s = Some e ->
+  cnt_run s bufs answers = R_ok (map (fun _ => (0, Some e)) bufs, s, answers).
+Proof.
+  induction bufs as [|m r IH]; intros s e answers He; cbn [cnt_run map]; [reflexivity|].
+  unfold cnt_read. rewrite He. rewrite (IH s e answers He). reflexivity.
+Qed.
+
+Lemma zsum_sticky (bufs : list Z) (e : rerr) : zsum (map fst (map (fun _ : Z => (0, Some e)) bufs)) = 0.
+Proof. induction bufs; simpl; auto. Qed.
+
+Definition answers_ok (answers : list answer) : Prop :=
+  forall a, In a answers -> 0 <= fst a <= max_int64 /\ snd a <> Some TooLarge.
+
+Lemma cnt_run_spec bufs : forall s answers,
+  c_err s = None -> 0 <= c_n s <= max_int64 - 1 -> answers_ok answers ->
+  exists outs s' consumed rest,
+    cnt_run s bufs answers = R_ok (outs, s', rest) /\ answers = consumed ++ rest /\
+    (forall o, In o outs -> 0 <= fst o) /\
+    zsum (map fst outs) = Z.min (c_n s) (zsum (map fst consumed)) /\
+    0 <= c_n s' <= c_n s /\
+    (c_n s < zsum (map fst consumed) <-> c_err s' = Some TooLarge) /\
+    (c_err s' = None -> c_n s' = c_n s - zsum (map fst consumed)).
+Proof.
+  induction bufs as [|m r IH]; intros s answers He Hn Hok.
+  - exists [], s, [], answers. cbn [cnt_run app map zsum fold_right].
+    split; [reflexivity|]. split; [reflexivity|]. split; [intros o []|].
+    split; [lia|]. split; [lia|]. split; [|intros _; lia].
+    split; [intros H; lia | rewrite He; discriminate].
+  - cbn [cnt_run]. unfold cnt_read. rewrite He.
+    destruct (m =? 0) eqn:Hm.
+    { destruct (IH s answers He Hn Hok) as (outs & s' & consumed & rest & Hr & Ha & Hpos & Hsum & Hrng & Htl & Hnone).
+      exists ((0, None) :: outs), s', consumed, rest. rewrite Hr.
+      split; [reflexivity|]. split; [exact Ha|]. split.
+      { intros o [<-|Ho]; [simpl; lia|auto]. }
+      split. { unfold zsum in *. cbn [map fst fold_right]. lia. }
+      split; [exact Hrng|]. split; [exact Htl|exact Hnone]. }
+    assert (H1 : wrap64 (c_n s + 1) = c_n s + 1).
+    { apply wrap64_id. unfold max_int64, two63 in *. lia. }
+    rewrite H1.
+    replace (c_n s + 1 <? 0) with false by (symmetry; apply Z.ltb_ge; lia).
+    rewrite andb_false_r.
+    (* the underlying reader's answer *)
+    assert (Hans : exists c e rest0 cons0,
+              match answers with [] => (0, Some EOF, []) | (c, e) :: r0 => (c, e, r0) end = (c, e, rest0) /\
+              answers = cons0 ++ rest0 /\ zsum (map fst cons0) = c /\ 0 <= c <= max_int64 /\
+              e <> Some TooLarge /\ answers_ok rest0).
+    { destruct answers as [|[c e] r0].
+      - exists 0, (Some EOF), [], []. split; [reflexivity|]. split; [reflexivity|]. split; [reflexivity|].
+        split; [unfold max_int64, two63; lia|]. split; [discriminate|]. intros a [].
+      - exists c, e, r0, [(c, e)]. destruct (Hok (c, e) (or_introl eq_refl)) as [Hc Hne]. simpl in Hc, Hne.
+        split; [reflexivity|]. split; [reflexivity|]. split; [simpl; lia|]. split; [exact Hc|].
+        split; [exact Hne|]. intros a Ha. apply Hok. right. exact Ha. }
+    destruct Hans as (c & e & rest0 & cons0 & -> & Ha0 & Hc0 & Hc & Hne & Hok0).
+    destruct (c <=? c_n s) eqn:Hle.
+    + apply Z.leb_le in Hle.
+      assert (Hw : wrap64 (c_n s - c) = c_n s - c).
+      { apply wrap64_id. unfold max_int64, two63 in *. lia. }
+      rewrite Hw.
+      destruct e as [x|].
+      * (* the reader's own error becomes sticky *)
+        rewrite (cnt_run_sticky r {| c_n := c_n s - c; c_err := Some x |} x rest0 eq_refl).
+        eexists _, _, cons0, rest0. split; [reflexivity|]. cbn [c_n c_err].
+        split; [exact Ha0|]. split.
+        { intros o [<-|Ho]; [simpl; lia|].
+          apply in_map_iff in Ho as (? & <- & _). simpl; lia. }
+        split.
+        { cbn [map fst zsum fold_right]. fold (zsum (map fst (map (fun _ : Z => (0, Some x)) r))).
+          rewrite zsum_sticky. lia. }
+        split; [lia|]. split; [|discriminate].
+        split; [intros Hlt; lia | intros Hx; congruence].
+      * set (s1 := {| c_n := c_n s - c; c_err := None |}).
+        destruct (IH s1 rest0 eq_refl) as (outs & s' & consumed & rest & Hr & Ha & Hpos & Hsum & Hrng & Htl & Hnone).
+        { unfold s1; cbn [c_n]; lia. } { exact Hok0. }
+        exists ((c, None) :: outs), s', (cons0 ++ consumed), rest. rewrite Hr. unfold s1 in *. cbn [c_n] in *.
+        assert (Hsplit : zsum (map fst (cons0 ++ consumed)) = c + zsum (map fst consumed)).
+        { rewrite map_app. unfold zsum. rewrite fold_right_app.
+          assert (Hfs : forall l acc, fold_right Z.add acc l = fold_right Z.add 0 l + acc).
+          { induction l as [|y l IHl]; intros acc; simpl; [lia|]. rewrite IHl. lia. }
+          rewrite (Hfs (map fst cons0)). unfold zsum in Hc0. rewrite Hc0. reflexivity. }
+        rewrite Hsplit.
+        split; [reflexivity|]. split; [rewrite Ha0, Ha, app_assoc; reflexivity|]. split.
+        { intros o [<-|Ho]; [simpl; lia|auto]. }
+        split. { cbn [map fst zsum fold_right]. fold (zsum (map fst outs)). lia. }
+        split; [lia|]. split.
+        { split; [intros Hlt; apply Htl; lia | intros Hx; apply Htl in Hx; lia]. }
+        intros Hx. rewrite (Hnone Hx). lia.
+    + apply Z.leb_gt in Hle.
+      rewrite (cnt_run_sticky r {| c_n := 0; c_err := Some TooLarge |} TooLarge rest0 eq_refl).
+      eexists _, _, cons0, rest0. split; [reflexivity|]. cbn [c_n c_err].
+      split; [exact Ha0|]. split.
+      { intros o [<-|Ho]; [simpl; lia|].
+        apply in_map_iff in Ho as (? & <- & _). simpl; lia. }
+      split.
+      { cbn [map fst zsum fold_right]. fold (zsum (map fst (map (fun _ : Z => (0, Some TooLarge)) r))).
+        rewrite zsum_sticky. lia. }
+      split; [lia|]. split; [|discriminate].
+      split; [intros _; reflexivity | intros _; lia].
+Qed.
+
+Theorem count_exact_int64 limit bufs answers :
+  0 <= limit <= max_int64 - 1 -> answers_ok answers ->
+  exists outs s' consumed rest,
+    cnt_run (cnt_init limit) bufs answers = R_ok (outs, s', rest) /\ answers = consumed ++ rest /\
+    (forall o, In o outs -> 0 <= fst o) /\
+    zsum (map fst outs) = Z.min limit (zsum (map fst consumed)) /\
+    0 <= c_n s' <= limit /\
+    (limit < zsum (map fst consumed) <-> c_err s' = Some TooLarge).
+Proof.
+  intros Hl Hok.
+  destruct (cnt_run_spec bufs (cnt_init limit) answers eq_refl Hl Hok)
+    as (outs & s' & consumed & rest & H1 & H2 & H3 & H4 & H5 & H6 & _).
+  exists outs, s', consumed, rest. cbn [cnt_init c_n] in *. auto 10.
+Qed.
+
+Theorem count_maxint64_panics m bufs answers :
+  m <> 0 -> - two63 < m -> cnt_run (cnt_init max_int64) (m :: bufs) answers = R_panic.
+Proof.
+  intros Hm Hlo. cbn [cnt_run]. unfold cnt_read. cbn [cnt_init c_err c_n].
+  replace (m =? 0) with false by (symmetry; apply Z.eqb_neq; exact Hm).
+  rewrite wrap64_max_plus_1.
+  replace (m >? - two63) with true by (symmetry; apply Z.gtb_lt; lia).
+  reflexivity.
+Qed.
+
+(* ======================================================================================== *)
+(* ---- parseSize: what an accepted size string yields ---- *)
+Lemma parse_size_units_range s us : - two63 <= parse_size_units s us < two63.
+Proof.
+  induction us as [|[sym mult] r IH]; cbn [parse_size_units].
+  - unfold two63; lia.
+  - destruct (has_suffix s sym); [|exact IH].
+    destruct (parse_int64 _); [apply wrap64_range | unfold two63; lia].
+Qed.
+
+Theorem accept_size_range s v : accept_size s = Some v -> 1 <= v <= max_int64.
+Proof.
+  unfold accept_size. destruct (parse_size s <? 1) eqn:H; [discriminate|].
+  intros E; injection E as <-. apply Z.ltb_ge in H.
+  pose proof (parse_size_units_range (map upper_b s) units). unfold parse_size, max_int64 in *. lia.
+Qed.
+
+Lemma has_suffix_split s suf :
+  has_suffix s suf = true -> s = firstn (length s - length suf) s ++ suf.
+Proof.
+  unfold has_suffix. intros H. apply andb_true_iff in H as [_ H]. apply beq_eq in H.
+  pose proof (firstn_skipn (length s - length suf) s) as E. rewrite H in E. symmetry. exact E.
+Qed.
+
+Lemma digits_val_spec ds : forall acc u,
+  digits_val ds acc = Some u ->
+  Forall (fun c => is_digit c = true) ds /\ u = fold_left (fun a c => a * 10 + digit_val c) ds acc.
+Proof.
+  induction ds as [|c r IH]; intros acc u H; cbn [digits_val] in H.
+  - injection H as <-. split; [constructor | reflexivity].
+  - destruct (is_digit c) eqn:Hc; [|discriminate].
+    destruct (IH _ _ H) as [Hall Hu]. split; [constructor; auto | exact Hu].
+Qed.
+
+Lemma span_digits_app ds sym :
+  Forall (fun c => is_digit c = true) ds ->
+  match sym with [] => True | c :: _ => is_digit c = false end ->
+  span_digits (ds ++ sym) = (ds, sym).
+Proof.
+  intros Hall Hs. induction Hall as [|c r Hc _ IH]; cbn [app span_digits].
+  - destruct sym as [|c r]; [reflexivity|]. cbn [span_digits]. rewrite Hs. reflexivity.
+  - rewrite Hc, IH. reflexivity.
+Qed.
+
+Definition signed (neg : bool) (z : Z) : Z := if neg then - z else z.
+
+Lemma parse_int64_spec p n :
+  parse_int64 p = Some n ->
+  exists neg ds, ds <> [] /\ Forall (fun c => is_digit c = true) ds /\ n = signed neg (dec ds) /\
+    - two63 <= n < two63 /\
+    ((p = ds /\ neg = false) \/ (p = 43%N :: ds /\ neg = false) \/ (p = 45%N :: ds /\ neg = true)).
+Proof.
+  unfold parse_int64. destruct p as [|c r]; [discriminate|].
+  assert (Hdec0 : forall ds u, digits_val ds 0 = Some u -> 0 <= u).
+  { intros ds u H. apply digits_val_spec in H as [Hall ->].
+    assert (G : forall l acc, Forall (fun c => is_digit c = true) l -> 0 <= acc ->
+                0 <= fold_left (fun a c => a * 10 + digit_val c) l acc).
+    { induction l as [|x l IHl]; intros acc Hl Ha; simpl; [exact Ha|].
+      inversion Hl as [|? ? Hx Hl']; subst. apply IHl; [exact Hl'|].
+      unfold is_digit in Hx. apply andb_true_iff in Hx as [Hx1 Hx2].
+      apply N.leb_le in Hx1. unfold digit_val. lia. }
+    apply G; [exact Hall | lia]. }
+  destruct (c =? 43)%N eqn:Hp; [|destruct (c =? 45)%N eqn:Hm].
+  - apply N.eqb_eq in Hp. subst c. destruct r as [|c2 r2] eqn:Er; [discriminate|]. rewrite <- Er in *.
+    destruct (digits_val r 0) as [u|] eqn:Hd; [|discriminate].
+    destruct (u <? two63) eqn:Hu; [|discriminate]. intros E; injection E as <-.
+    pose proof (Hdec0 _ _ Hd). apply Z.ltb_lt in Hu.
+    apply digits_val_spec in Hd as [Hall ->].
+    exists false, r. repeat split; auto; try (rewrite Er; discriminate); try (unfold signed, dec, two63 in *; lia).
+  - apply N.eqb_eq in Hm. subst c. destruct r as [|c2 r2] eqn:Er; [discriminate|]. rewrite <- Er in *.
+    destruct (digits_val r 0) as [u|] eqn:Hd; [|discriminate].
+    destruct (u <=? two63) eqn:Hu; [|discriminate]. intros E; injection E as <-.
+    pose proof (Hdec0 _ _ Hd). apply Z.leb_le in Hu.
+    apply digits_val_spec in Hd as [Hall ->].
+    exists true, r. repeat split; auto; try (rewrite Er; discriminate); try (unfold signed, dec, two63 in *; lia).
+  - destruct (digits_val (c :: r) 0) as [u|] eqn:Hd; [|discriminate].
+    destruct (u <? two63) eqn:Hu; [|discriminate]. intros E; injection E as <-.
+    pose proof (Hdec0 _ _ Hd). apply Z.ltb_lt in Hu.
+    apply digits_val_spec in Hd as [Hall ->].
+    exists false, (c :: r). repeat split; auto; try discriminate; try (unfold signed, dec, two63 in *; lia).
+Qed.
+
+Lemma parse_size_units_found s : forall us v,
+  parse_size_units s us = v -> 1 <= v ->
+  exists sym mult n, In (sym, mult) us /\ has_suffix s sym = true /\
+    parse_int64 (firstn (length s - length sym) s) = Some n /\ v = wrap64 (n * mult).
+Proof.
+  induction us as [|[sym mult] r IH]; intros v H Hv; cbn [parse_size_units] in H.
+  - lia.
+  - destruct (has_suffix s sym) eqn:Hs.
+    + destruct (parse_int64 _) as [n|] eqn:Hp; [|lia].
+      exists sym, mult, n. repeat split; auto. left; reflexivity.
+    + destruct (IH v H Hv) as (sym' & mult' & n & Hin & H1 & H2 & H3).
+      exists sym', mult', n. repeat split; auto. right; exact Hin.
+Qed.
+
+Lemma units_facts sym mult :
+  In (sym, mult) units ->
+  unit_of sym = Some mult /\ match sym with [] => True | c :: _ => is_digit c = false end /\
+  1 <= mult <= 1073741824.
+Proof.
+  unfold units. intros H.
+  repeat (destruct H as [H|H]; [injection H as <- <-; vm_compute; intuition congruence|]).
+  destruct H.
+Qed.
+
+Lemma is_digit_not_sign c : is_digit c = true -> (c =? 43)%N = false /\ (c =? 45)%N = false.
+Proof.
+  unfold is_digit. intros H. apply andb_true_iff in H as [H1 _]. apply N.leb_le in H1.
+  split; apply N.eqb_neq; lia.
+Qed.
+
+Theorem accept_size_denotes s v :
+  accept_size s = Some v ->
+  exists n u, denote s = Some (n, u) /\ - two63 <= n < two63 /\ 1 <= u <= 1073741824 /\
+    v = wrap64 (n * u) /\ 1 <= v <= max_int64 /\
+    (- two63 <= n * u < two63 -> v = n * u /\ 1 <= n * u).
+Proof.
+  intros Hacc. pose proof (accept_size_range _ _ Hacc) as Hrange.
+  unfold accept_size in Hacc. destruct (parse_size s <? 1) eqn:Hlt; [discriminate|].
+  injection Hacc as Hv. unfold parse_size in Hv.
+  destruct (parse_size_units_found _ _ _ Hv (proj1 Hrange)) as (sym & mult & n & Hin & Hs & Hp & Hw).
+  destruct (units_facts _ _ Hin) as (Hu & Hhead & Hmult).
+  apply has_suffix_split in Hs.
+  destruct (parse_int64_spec _ _ Hp) as (neg & ds & Hne & Hall & Hn & Hnr & Hshape).
+  exists n, mult.
+  assert (Hden : denote s = Some (n, mult)).
+  { unfold denote. set (U := map upper_b s) in *. rewrite Hs.
+    set (p := firstn (length U - length sym) U) in *.
+    destruct Hshape as [[Hpd ->]|[[Hpd ->]|[Hpd ->]]]; rewrite Hpd.
+    - destruct ds as [|c r]; [congruence|]. cbn [app].
+      inversion Hall as [|? ? Hc Hr]; subst. destruct (is_digit_not_sign _ Hc) as [-> ->].
+      change (c :: r ++ sym) with ((c :: r) ++ sym).
+      rewrite (span_digits_app (c :: r) sym Hall Hhead). rewrite Hu. reflexivity.
+    - cbn [app]. rewrite N.eqb_refl.
+      rewrite (span_digits_app ds sym Hall Hhead). destruct ds; [congruence|]. rewrite Hu. subst n. reflexivity.
+    - cbn [app]. change (45 =? 43)%N with false. rewrite N.eqb_refl.
+      rewrite (span_digits_app ds sym Hall Hhead). destruct ds; [congruence|]. rewrite Hu. subst n. reflexivity. }
+  split; [exact Hden|]. split; [exact Hnr|]. split; [exact Hmult|]. split; [exact Hw|].
+  split; [exact Hrange|]. intros Hin64. rewrite wrap64_id in Hw by exact Hin64. split; [exact Hw | lia].
+Qed.
+
+(* the product is an int64 product: an accepted string whose number*unit overflows yields
+   a WRAPPED value, not an error *)
+Theorem parse_size_exact_refuted :
+  exists s n u v, denote s = Some (n, u) /\ accept_size s = Some v /\ v <> n * u.
+Proof.
+  exists (bs "18014398509481985KB"%string), 18014398509481985, 1024, 1024.
+  split; [vm_compute; reflexivity|]. split; [vm_compute; reflexivity|]. lia.
+Qed.
+
+(* ======================================================================================== *)
+(* ---- the listener's http.Server: the coded loops vs the strictest-value merges ---- *)
+Lemma tstep_fold : forall (g : list tv) (st : bool) (a : Z),
+  (st = false -> a = 0) ->
+  fold_left tstep g (st, a) = (st || existsb fst g, fold_left pick (set_values g) a).
+Proof.
+  induction g as [|[cs cv] r IH]; intros st a Hst; cbn [fold_left existsb].
+  - rewrite orb_false_r. reflexivity.
+  - unfold set_values in *. cbn [filter fst]. destruct cs; cbn [map fold_left snd].
+    + assert (E : tstep (st, a) (true, cv) = (true, pick a cv)).
+      { unfold tstep, stricter_timeout, pick. cbn [fst snd andb].
+        destruct st; cbn [negb orb].
+        - destruct (cv =? 0) eqn:E1; [reflexivity|]. destruct (a =? 0) eqn:E2; cbn [orb]; [reflexivity|].
+          destruct (cv <? a) eqn:E3; f_equal; lia.
+        - rewrite (Hst eq_refl). destruct (cv =? 0) eqn:E1; [f_equal; lia | reflexivity]. }
+      rewrite E. rewrite IH by discriminate. rewrite orb_true_r. reflexivity.
+    + assert (E : tstep (st, a) (false, cv) = (st, a)) by reflexivity.
+      rewrite E. rewrite IH by exact Hst. reflexivity.
+Qed.
+
+Lemma set_values_nil_iff (g : list tv) : existsb fst g = false <-> set_values g = [].
+Proof.
+  unfold set_values. induction g as [|[cs cv] r IH]; cbn; [tauto|].
+  destruct cs; cbn; [split; discriminate | exact IH].
+Qed.
+
+Lemma field_loop_is_merge (g : list tv) dflt :
+  or_default (fold_left tstep g (false, 0)) dflt = merge_timeout dflt g.
+Proof.
+  rewrite tstep_fold by reflexivity. unfold or_default, merge_timeout. cbn [fst snd orb].
+  destruct (existsb fst g) eqn:E.
+  - destruct (set_values g) eqn:Es; [|reflexivity].
+    apply set_values_nil_iff in Es. congruence.
+  - apply set_values_nil_iff in E. rewrite E. reflexivity.
+Qed.
+
+Lemma tacc_fold_proj : forall (g : list site) (a : tacc),
+  let r := fold_left tacc_step g a in
+  a_read r = fold_left tstep (map s_read g) (a_read a) /\
+  a_rhdr r = fold_left tstep (map s_rhdr g) (a_rhdr a) /\
+  a_write r = fold_left tstep (map s_write g) (a_write a) /\
+  a_idle r = fold_left tstep (map s_idle g) (a_idle a).
+Proof.
+  induction g as [|c r IH]; intros a; cbn [fold_left map]; [auto|].
+  apply (IH (tacc_step a c)).
+Qed.
+
+Lemma hstep_pick m v : hstep m v = pick m v.
+Proof.
+  unfold hstep, pick. destruct (v =? 0) eqn:E1; [reflexivity|].
+  destruct (m =? 0) eqn:E2.
+  - rewrite Z.ltb_irrefl. reflexivity.
+  - destruct (v <? m) eqn:E3; lia.
+Qed.
+
+Lemma header_loop_strictest g :
+  header_loop g = let m := strictest g in if 0 <? m then m else 0.
+Proof.
+  unfold header_loop, strictest.
+  assert (E : forall l a, fold_left hstep l a = fold_left pick l a).
+  { induction l as [|x l IHl]; intros a; cbn [fold_left]; [reflexivity|]. rewrite hstep_pick. apply IHl. }
+  rewrite E. reflexivity.
+Qed.
+
+Theorem new_server_fields dflt g :
+  let sv := new_server dflt g in
+  sv_read sv = merge_timeout (sv_read dflt) (map s_read g) /\
+  sv_rhdr sv = merge_timeout (sv_rhdr dflt) (map s_rhdr g) /\
+  sv_write sv = merge_timeout (sv_write dflt) (map s_write g) /\
+  sv_idle sv = merge_timeout (sv_idle dflt) (map s_idle g) /\
+  ((forall c, In c g -> 0 <= s_maxhdr c) -> sv_maxhdr sv = merge_header_limit (map s_maxhdr g)).
+Proof.
+  cbv zeta. unfold new_server. cbn [sv_read sv_rhdr sv_write sv_idle sv_maxhdr].
+  destruct (tacc_fold_proj g tacc0) as (H1 & H2 & H3 & H4). cbv zeta in H1, H2, H3, H4.
+  rewrite H1, H2, H3, H4. cbn [tacc0 a_read a_rhdr a_write a_idle].
+  rewrite !field_loop_is_merge. repeat split.
+  intros Hpos. rewrite header_loop_strictest. cbv zeta. unfold merge_header_limit.
+  assert (Hl : forall v, In v (map s_maxhdr g) -> 0 <= v).
+  { intros v Hv. apply in_map_iff in Hv as (c & <- & Hc). apply Hpos. exact Hc. }
+  pose proof (fold_pick_spec (map s_maxhdr g) 0 (Z.le_refl 0) Hl) as (Hr0 & _). cbv zeta in Hr0.
+  unfold strictest. destruct (0 <? fold_left pick (map s_maxhdr g) 0) eqn:E; [reflexivity|].
+  apply Z.ltb_ge in E. lia.
+Qed.
+
+Theorem new_server_perm dflt g g' : Permutation g g' -> new_server dflt g = new_server dflt g'.
+Proof.
+  intros HP. unfold new_server.
+  destruct (tacc_fold_proj g tacc0) as (H1 & H2 & H3 & H4).
+  destruct (tacc_fold_proj g' tacc0) as (H1' & H2' & H3' & H4'). cbv zeta in *.
+  rewrite H1, H2, H3, H4, H1', H2', H3', H4'. cbn [tacc0 a_read a_rhdr a_write a_idle].
+  rewrite !field_loop_is_merge, !header_loop_strictest.
+  rewrite (merge_timeout_perm _ _ _ (Permutation_map s_read HP)).
+  rewrite (merge_timeout_perm _ _ _ (Permutation_map s_rhdr HP)).
+  rewrite (merge_timeout_perm _ _ _ (Permutation_map s_write HP)).
+  rewrite (merge_timeout_perm _ _ _ (Permutation_map s_idle HP)).
+  rewrite (strictest_perm _ _ (Permutation_map s_maxhdr HP)). reflexivity.
+Qed.
+
+Definition site_ok (c : site) : Prop :=
+  0 <= snd (s_read c) /\ 0 <= snd (s_rhdr c) /\ 0 <= snd (s_write c) /\ 0 <= snd (s_idle c) /\ 0 <= s_maxhdr c.
+
+Lemma merge_honours dflt (g : list tv) (x : tv) :
+  (forall v, In v (set_values g) -> 0 <= v) -> In x g -> fst x = true ->
+  honours (merge_timeout dflt g) (snd x) = true.
+Proof.
+  intros Hpos Hin Hset. unfold honours.
+  destruct (snd x =? 0) eqn:E0; [reflexivity|]. apply Z.eqb_neq in E0. cbn [orb].
+  assert (Hx : In (snd x) (set_values g)).
+  { unfold set_values. apply in_map. apply filter_In. split; assumption. }
+  pose proof (Hpos _ Hx) as Hx0.
+  destruct (merge_timeout_spec dflt g Hpos) as (_ & _ & H3). cbv zeta in H3.
+  destruct H3 as (_ & Hr & Hall). { exists (snd x). split; [exact Hx | lia]. }
+  destruct (Hall _ Hx) as [?|Hle]; [lia|].
+  apply andb_true_iff. split; [apply Z.ltb_lt | apply Z.leb_le]; lia.
+Qed.
+
+Lemma strictest_honours (l : list Z) x :
+  (forall v, In v l -> 0 <= v) -> In x l -> honours (strictest l) x = true.
+Proof.
+  intros Hpos Hin. unfold honours.
+  destruct (x =? 0) eqn:E0; [reflexivity|]. apply Z.eqb_neq in E0. cbn [orb].
+  pose proof (Hpos _ Hin) as Hx0.
+  destruct (strictest_spec l Hpos) as (_ & H3). cbv zeta in H3.
+  destruct H3 as (_ & Hr & Hall). { exists x. split; [exact Hin | lia]. }
+  destruct (Hall _ Hin) as [?|Hle]; [lia|].
+  apply andb_true_iff. split; [apply Z.ltb_lt | apply Z.leb_le]; lia.
+Qed.
+
+Theorem merge_never_relaxes dflt g c :
+  (forall c', In c' g -> site_ok c') -> In c g -> site_honoured (new_server dflt g) c = true.
+Proof.
+  intros Hok Hin.
+  destruct (new_server_fields dflt g) as (H1 & H2 & H3 & H4 & H5). cbv zeta in *.
+  unfold site_honoured. rewrite H1, H2, H3, H4.
+  rewrite H5 by (intros c' Hc'; apply (Hok c' Hc')).
+  assert (P : forall (f : site -> tv), (forall c', In c' g -> 0 <= snd (f c')) ->
+              forall d, negb (fst (f c)) || honours (merge_timeout d (map f g)) (snd (f c)) = true).
+  { intros f Hf d. destruct (fst (f c)) eqn:Hs; [|reflexivity]. cbn [negb orb].
+    apply merge_honours; [|apply in_map; exact Hin|exact Hs].
+    intros v Hv. unfold set_values in Hv. apply in_map_iff in Hv as (t & <- & Ht).
+    apply filter_In in Ht as [Ht _]. apply in_map_iff in Ht as (c' & <- & Hc'). apply Hf. exact Hc'. }
+  rewrite (P s_read), (P s_rhdr), (P s_write), (P s_idle);
+    try (intros c' Hc'; destruct (Hok c' Hc') as (?&?&?&?&?); assumption).
+  cbn [andb]. unfold merge_header_limit. apply strictest_honours.
+  - intros v Hv. apply in_map_iff in Hv as (c' & <- & Hc'). destruct (Hok c' Hc') as (?&?&?&?&?); assumption.
+  - apply in_map. exact Hin.
+Qed.
+
+(* ---- consumers: what reaches the backend, and when the client sees 413 ---- *)
+Theorem backend_never_beyond_limit limit body script eofd bufs d e :
+  0 <= limit -> consumer_reads limit body script eofd bufs = (d, e) ->
+  d = firstn (length d) body /\ Z.of_nat (length d) <= limit /\
+  (e = Some TooLarge -> limit < Z.of_nat (length body) /\ d = firstn (Z.to_nat limit) body).
+Proof.
+  unfold consumer_reads. intros Hl H.
+  destruct (read_all (mbr_init limit body script eofd) bufs) as [[d0 e0] s0] eqn:Hr.
+  injection H as <- <-.
+  destruct (limit_exact _ _ _ _ _ _ _ _ Hl Hr) as (H1 & H2 & _ & H4 & _). auto.
+Qed.
+
+Theorem too_large_is_413_partial bs :
+  consumer_status ProxyStream false (Some TooLarge) bs = 413.
+Proof. reflexivity. Qed.
+
+Theorem too_large_is_413_refuted :
+  exists k clf bs, bs = 200 /\ consumer_status k clf (Some TooLarge) bs <> 413.
+Proof. exists ProxyStream, true, 200. split; [reflexivity|]. cbn. lia. Qed.
+
+Theorem too_large_status_table k clf bs :
+  consumer_status k clf (Some TooLarge) bs = 413 <-> (k = ProxyStream /\ clf = false) \/ (k = Fastcgi /\ bs = 413).
+Proof.
+  destruct k, clf; cbn; split; intros H; try lia; try tauto;
+    try (destruct H as [[? ?]|[? ?]]; try discriminate; try lia).
+Qed.
+
+Theorem limit_exact_all_int64_refuted :
+  exists (limit : Z) (body : list N) script eofd bufs,
+  0 <= limit <= max_int64 /\ read_all64 (mbr_init limit body script eofd) bufs = R_panic.
+Proof.
+  exists max_int64, [1%N], [], true, [1%nat]. split; [unfold max_int64, two63; lia|].
+  exact (read_all64_maxint64_panics [1%N] [] true 1%nat [] (le_n 1)).
+Qed.
+
+(* ======================================================================================== *)
+(* ---- parseSize, converse: every string denoting a product within 1..2^63-1 is accepted ---- *)
+
+Lemma has_suffix_iff s suf : has_suffix s suf = true <-> exists p, s = p ++ suf.
+Proof.
+  split.
+  - intros H. eexists. apply has_suffix_split. exact H.
+  - intros [p ->]. unfold has_suffix. rewrite app_length.
+    apply andb_true_iff. split; [apply Nat.leb_le; lia|].
+    replace (length p + length suf - length suf)%nat with (length p) by lia.
+    rewrite skipn_app, Nat.sub_diag, skipn_all. cbn [skipn app]. apply beq_refl.
+Qed.
+
+Lemma has_suffix_prefix (p suf : bytes) : firstn (length (p ++ suf) - length suf) (p ++ suf) = p.
+Proof.
+  rewrite app_length. replace (length p + length suf - length suf)%nat with (length p) by lia.
+  rewrite firstn_app, Nat.sub_diag, firstn_O, app_nil_r, firstn_all. reflexivity.
+Qed.
+
+Lemma span_digits_spec : forall r ds sym, span_digits r = (ds, sym) ->
+  r = ds ++ sym /\ Forall (fun c => is_digit c = true) ds /\
+  match sym with [] => True | c :: _ => is_digit c = false end.
+Proof.
+  induction r as [|c r IH]; intros ds sym H; cbn [span_digits] in H.
+  - injection H as <- <-. repeat split; constructor.
+  - destruct (is_digit c) eqn:Hc.
+    + destruct (span_digits r) as [d t] eqn:Hs. injection H as <- <-.
+      destruct (IH _ _ eq_refl) as (-> & Hall & Hh). repeat split; auto.
+    + injection H as <- <-. cbn. rewrite Hc. repeat split; constructor.
+Qed.
+
+Lemma digits_val_complete ds : forall acc,
+  Forall (fun c => is_digit c = true) ds ->
+  digits_val ds acc = Some (fold_left (fun a c => a * 10 + digit_val c) ds acc).
+Proof.
+  induction ds as [|c r IH]; intros acc H; cbn [digits_val fold_left]; [reflexivity|].
+  inversion H as [|? ? Hc Hr]; subst. rewrite Hc. apply IH. exact Hr.
+Qed.
+
+Lemma parse_int64_complete (sign ds : bytes) neg :
+  ds <> [] -> Forall (fun c => is_digit c = true) ds ->
+  (sign = [] /\ neg = false) \/ (sign = [43%N] /\ neg = false) \/ (sign = [45%N] /\ neg = true) ->
+  - two63 <= signed neg (dec ds) < two63 ->
+  parse_int64 (sign ++ ds) = Some (signed neg (dec ds)).
+Proof.
+  intros Hne Hall Hs Hr. unfold parse_int64.
+  destruct Hs as [[-> ->]|[[-> ->]|[-> ->]]]; cbn [app].
+  - destruct ds as [|c r]; [congruence|].
+    inversion Hall as [|? ? Hc Hr']; subst. destruct (is_digit_not_sign _ Hc) as [-> ->].
+    rewrite (digits_val_complete (c :: r) 0 Hall). fold (dec (c :: r)).
+    unfold signed in *. replace (dec (c :: r) <? two63) with true by (symmetry; apply Z.ltb_lt; lia). reflexivity.
+  - rewrite N.eqb_refl. destruct ds as [|c r] eqn:E; [congruence|]. rewrite <- E in *.
+    rewrite (digits_val_complete ds 0 Hall). fold (dec ds).
+    unfold signed in *. replace (dec ds <? two63) with true by (symmetry; apply Z.ltb_lt; lia). reflexivity.
+  - change (45 =? 43)%N with false. rewrite N.eqb_refl. destruct ds as [|c r] eqn:E; [congruence|]. rewrite <- E in *.
+    rewrite (digits_val_complete ds 0 Hall). fold (dec ds).
+    unfold signed in *. replace (dec ds <=? two63) with true by (symmetry; apply Z.leb_le; lia). reflexivity.
+Qed.
+
+(* a string ending in digit d followed by sym has none of the other unit symbols as suffix *)
+Lemma app2_inj {A} (p q : list A) a b c d : p ++ [a; b] = q ++ [c; d] -> a = c /\ b = d.
+Proof.
+  intros H. change (p ++ [a; b]) with (p ++ [a] ++ [b]) in H. change (q ++ [c; d]) with (q ++ [c] ++ [d]) in H.
+  rewrite !app_assoc in H. apply app_inj_tail in H as [H ->]. apply app_inj_tail in H as [_ ->]. auto.
+Qed.
+Lemma app1_inj {A} (p q : list A) a b : p ++ [a] = q ++ [b] -> a = b.
+Proof. intros H. apply app_inj_tail in H as [_ ->]. reflexivity. Qed.
+
+Lemma digit_not_letter d : is_digit d = true -> d <> 75%N /\ d <> 77%N /\ d <> 71%N /\ d <> 66%N.
+Proof.
+  unfold is_digit. intros H. apply andb_true_iff in H as [_ H]. apply N.leb_le in H. repeat split; lia.
+Qed.
+
+Lemma parse_size_units_complete (sign ds : bytes) neg sym mult :
+  ds <> [] -> Forall (fun c => is_digit c = true) ds ->
+  (sign = [] /\ neg = false) \/ (sign = [43%N] /\ neg = false) \/ (sign = [45%N] /\ neg = true) ->
+  - two63 <= signed neg (dec ds) < two63 ->
+  In (sym, mult) units ->
+  parse_size_units ((sign ++ ds) ++ sym) units = wrap64 (signed neg (dec ds) * mult).
+Proof.
+  intros Hne Hall Hs Hr Hin.
+  pose proof (parse_int64_complete sign ds neg Hne Hall Hs Hr) as Hp.
+  (* the digit run ends in a digit d: ds = ds0 ++ [d] *)
+  destruct (exists_last Hne) as (ds0 & d & Eds).
+  assert (Hd : is_digit d = true).
+  { rewrite Eds in Hall. apply Forall_app in Hall as [_ Hl]. inversion Hl; assumption. }
+  destruct (digit_not_letter d Hd) as (HK & HM & HG & HB).
+  set (P := sign ++ ds) in *.
+  assert (EP : P = (sign ++ ds0) ++ [d]) by (unfold P; rewrite Eds, app_assoc; reflexivity).
+  assert (Hyes : forall suf, has_suffix (P ++ suf) suf = true) by (intros; apply has_suffix_iff; eexists; reflexivity).
+  unfold units in Hin. cbn [bs] in Hin. unfold units. cbn [bs parse_size_units].
+  change (N_of_ascii "K") with 75%N in *. change (N_of_ascii "M") with 77%N in *.
+  change (N_of_ascii "G") with 71%N in *. change (N_of_ascii "B") with 66%N in *.
+  assert (F : forall suf, has_suffix (P ++ sym) suf = false <-> ~ exists p, P ++ sym = p ++ suf).
+  { intros suf. rewrite <- has_suffix_iff. destruct (has_suffix (P ++ sym) suf); split; intros; try congruence; try tauto. }
+  destruct Hin as [E|[E|[E|[E|[E|[]]]]]]; injection E as <- <-.
+  - rewrite Hyes, has_suffix_prefix, Hp. reflexivity.
+  - replace (has_suffix (P ++ [77%N; 66%N]) [75%N; 66%N]) with false.
+    2:{ symmetry. apply F. intros [p H]. apply app2_inj in H as [H _]. lia. }
+    rewrite Hyes, has_suffix_prefix, Hp. reflexivity.
+  - replace (has_suffix (P ++ [71%N; 66%N]) [75%N; 66%N]) with false.
+    2:{ symmetry. apply F. intros [p H]. apply app2_inj in H as [H _]. lia. }
+    replace (has_suffix (P ++ [71%N; 66%N]) [77%N; 66%N]) with false.
+    2:{ symmetry. apply F. intros [p H]. apply app2_inj in H as [H _]. lia. }
+    rewrite Hyes, has_suffix_prefix, Hp. reflexivity.
+  - assert (G : forall x, has_suffix (P ++ [66%N]) [x; 66%N] = false <-> d <> x).
+    { intros x. rewrite F. split.
+      - intros Hn ->. apply Hn. exists (sign ++ ds0). rewrite EP, <- app_assoc. reflexivity.
+      - intros Hdx [p H]. rewrite EP, <- app_assoc in H. cbn [app] in H. apply app2_inj in H as [H _]. congruence. }
+    rewrite (proj2 (G 75%N) HK), (proj2 (G 77%N) HM), (proj2 (G 71%N) HG).
+    rewrite Hyes, has_suffix_prefix, Hp. reflexivity.
+  - rewrite !app_nil_r.
+    assert (G2 : forall x, has_suffix P [x; 66%N] = false).
+    { intros x. destruct (has_suffix P [x; 66%N]) eqn:H; [|reflexivity]. apply has_suffix_iff in H as [p H].
+      rewrite EP in H. change (p ++ [x; 66%N]) with (p ++ [x] ++ [66%N]) in H. rewrite app_assoc in H.
+      apply app1_inj in H. congruence. }
+    assert (G1 : has_suffix P [66%N] = false).
+    { destruct (has_suffix P [66%N]) eqn:H; [|reflexivity]. apply has_suffix_iff in H as [p H].
+      rewrite EP in H. apply app1_inj in H. congruence. }
+    rewrite !G2, G1.
+    pose proof (Hyes []) as Hy. rewrite app_nil_r in Hy. rewrite Hy.
+    pose proof (has_suffix_prefix P []) as Hpre. rewrite app_nil_r in Hpre. rewrite Hpre, Hp. reflexivity.
+Qed.
+
+Lemma unit_of_in sym u : unit_of sym = Some u -> In (sym, u) units.
+Proof.
+  unfold unit_of. destruct (find _ units) as [[s' m]|] eqn:Hf; [|discriminate].
+  intros E; injection E as <-. apply find_some in Hf as [Hin Hb]. cbn [fst] in Hb.
+  apply beq_eq in Hb. subst s'. exact Hin.
+Qed.
+
+Theorem accept_size_complete s n u :
+  denote s = Some (n, u) -> 1 <= n * u <= max_int64 -> accept_size s = Some (n * u).
+Proof.
+  intros Hd Hr. unfold denote in Hd. set (U := map upper_b s) in *.
+  assert (Hshape : exists sign ds sym neg, U = (sign ++ ds) ++ sym /\ ds <> [] /\
+            Forall (fun c => is_digit c = true) ds /\
+            ((sign = [] /\ neg = false) \/ (sign = [43%N] /\ neg = false) \/ (sign = [45%N] /\ neg = true)) /\
+            n = signed neg (dec ds) /\ In (sym, u) units).
+  { destruct U as [|c r] eqn:EU.
+    - cbn in Hd. discriminate.
+    - destruct (c =? 43)%N eqn:Hp; [|destruct (c =? 45)%N eqn:Hm].
+      + apply N.eqb_eq in Hp. subst c. destruct (span_digits r) as [ds sym] eqn:Hs.
+        destruct ds as [|d0 dr] eqn:Ed; [discriminate|]. rewrite <- Ed in *.
+        destruct (unit_of sym) as [m|] eqn:Hu; [|discriminate]. injection Hd as <- <-.
+        destruct (span_digits_spec _ _ _ Hs) as (-> & Hall & _).
+        exists [43%N], ds, sym, false. repeat split; auto; try (rewrite Ed; discriminate).
+        apply unit_of_in; exact Hu.
+      + apply N.eqb_eq in Hm. subst c. destruct (span_digits r) as [ds sym] eqn:Hs.
+        destruct ds as [|d0 dr] eqn:Ed; [discriminate|]. rewrite <- Ed in *.
+        destruct (unit_of sym) as [m|] eqn:Hu; [|discriminate]. injection Hd as <- <-.
+        destruct (span_digits_spec _ _ _ Hs) as (-> & Hall & _).
+        exists [45%N], ds, sym, true. repeat split; auto; try (rewrite Ed; discriminate).
+        apply unit_of_in; exact Hu.
+      + destruct (span_digits (c :: r)) as [ds sym] eqn:Hs.
+        destruct ds as [|d0 dr] eqn:Ed; [discriminate|]. rewrite <- Ed in *.
+        destruct (unit_of sym) as [m|] eqn:Hu; [|discriminate]. injection Hd as <- <-.
+        destruct (span_digits_spec _ _ _ Hs) as (E & Hall & _).
+        exists [], ds, sym, false. cbn [app]. repeat split; auto; try (rewrite Ed; discriminate).
+        apply unit_of_in; exact Hu. }
+  destruct Hshape as (sign & ds & sym & neg & EU & Hne & Hall & Hsg & Hn & Hin).
+  destruct (units_facts _ _ Hin) as (_ & _ & Hm).
+  assert (Hn64 : - two63 <= signed neg (dec ds) < two63).
+  { rewrite <- Hn. unfold max_int64, two63 in *. nia. }
+  unfold accept_size, parse_size. fold U. rewrite EU.
+  rewrite (parse_size_units_complete sign ds neg sym u Hne Hall Hsg Hn64 Hin).
+  rewrite <- Hn. rewrite wrap64_id by (unfold max_int64, two63 in *; lia).
+  replace (n * u <? 1) with false by (symmetry; apply Z.ltb_ge; lia). reflexivity.
+Qed.
+
+Theorem accept_size_rejects s :
+  accept_size s = None ->
+  match denote s with
+  | None => True
+  | Some (n, u) => ~ (1 <= n * u <= max_int64)
+  end.
+Proof.
+  intros H. destruct (denote s) as [[n u]|] eqn:Hd; [|exact I].
+  intros Hr. rewrite (accept_size_complete s n u Hd Hr) in H. discriminate.
 Qed.
